@@ -28,7 +28,7 @@ RULE = ("one case = solver configuration (class, knobs) + matrix class + 1-2 sol
         "= at least one solve follows a second update, or a fallback/restart/initial-guess path was taken")
 PROBES = ["fallback_fired_forced", "fallback_fired_natural", "switched_back_to_cholesky", "cg_converged_at_iteration_0",
           "cg_restart_taken", "two_level_multigrid", "solve_after_second_update", "two_objects_interleaved", "dependent_columns",
-          "auto_manual_override", "auto_returned_cholesky", "auto_returned_ldl", "auto_returned_lu", "auto_returned_diagonal", "auto_returned_sparselu",
+          "auto_manual_override", "fortran_ordered_matrix", "auto_returned_cholesky", "auto_returned_ldl", "auto_returned_lu", "auto_returned_diagonal", "auto_returned_sparselu",
           "trans_T_complex", "trans_H_complex", "rhs_fortran_order", "rhs_strided_view", "matrix_given_to_constructor", "one_by_one_matrix"]
 FAULT_KINDS = ["cholesky_fail_forced", "cholesky_fail_natural"]
 COMPONENTS = {"real": ["pymoto.solvers: SolverDiagonal, SolverDenseQR, SolverDenseLU, SolverDenseCholesky, SolverDenseLDL, "
@@ -111,7 +111,9 @@ def gen(rng, idx, tier):
     # truthful manual overrides handed to auto_determine_solver (each "prevents the check" of one matrix property)
     auto_flags = [f for f in ("issymmetric", "ishermitian", "isdiagonal", "islowertriangular", "isuppertriangular", "ispositivedefinite")
                   if rng.random() < 0.3] if solver.startswith("auto") and rng.random() < 0.6 else []
-    return dict(solver=solver, cls=cls, cplx=bool(cplx), sparse=sparse, n=n, knobs=knobs, fe=fe, nobj=nobj, ops=ops, auto_flags=auto_flags)
+    layout = str(rng.choice(["C", "C", "F", "T"]))      # memory layout of dense matrices as handed to update()
+    return dict(solver=solver, cls=cls, cplx=bool(cplx), sparse=sparse, n=n, knobs=knobs, fe=fe, nobj=nobj, ops=ops, auto_flags=auto_flags,
+                layout=layout)
 
 
 def simplify(case):
@@ -172,7 +174,7 @@ def make_matrix(case, seed, pattern, scale):
         mod.response()
         return sK.state.copy() * scale
     return G.make_matrix(dict(n=case["n"], cls=case["cls"], cplx=case["cplx"], sparse=case["sparse"], seed=seed,
-                              pattern=pattern, scale=scale))
+                              pattern=pattern, scale=scale, layout=case.get("layout", "C")))
 
 
 def make_solver(case, A_first):
@@ -264,6 +266,9 @@ def run(case):
             if ob["solver"] is None and case["solver"].startswith("auto") and case["cls"] != "diag":
                 pattern = "full"     # auto_determine_solver inspects the first matrix: it must be generic for its class
             A = make_matrix(case, op["seed"], pattern, op["scale"])
+            A_ref = A.copy()                # the oracle's own copy, taken before the solver sees the matrix
+            if isinstance(A, np.ndarray) and not A.flags.c_contiguous:
+                probe("fortran_ordered_matrix")
             n = A.shape[0]
             f_forced, f_nat = seams.state["chol_forced"], seams.state["chol_natural"]
             try:
@@ -307,7 +312,7 @@ def run(case):
                 probe("switched_back_to_cholesky")
             if type(ob["solver"]).__name__ == "SolverDenseCholesky":
                 ob["chol_ok"] = not (forced or natural)
-            ob["A"] = A
+            ob["A"] = A_ref
             if A.shape[0] == 1:
                 probe("one_by_one_matrix")
             ob["nupd"] += 1
